@@ -19,6 +19,47 @@ import (
 	"golang.org/x/tools/go/ssa/ssautil"
 )
 
+var libDir = "/verif/lib"
+
+// checkAxiomGlobals: package-level variables mentioned in axioms must only be assigned
+// during package initialisation.
+func (e *Env) checkAxiomGlobals() error {
+	names := map[string]bool{}
+	var walk func(x *CExpr)
+	walk = func(x *CExpr) {
+		if x == nil {
+			return
+		}
+		if x.Kind == "id" {
+			names[x.Name] = true
+		}
+		walk(x.X)
+		walk(x.Y)
+		walk(x.Z)
+		for _, a := range x.Args {
+			walk(a)
+		}
+	}
+	for _, a := range e.con.Axioms {
+		walk(a.Expr)
+	}
+	for fn := range ssaAllFunctions(e.prog, e.spkg) {
+		if fn.Name() == "init" || strings.HasPrefix(fn.Name(), "init#") {
+			continue
+		}
+		for _, b := range fn.Blocks {
+			for _, in := range b.Instrs {
+				if st, ok := in.(*ssa.Store); ok {
+					if g, ok := st.Addr.(*ssa.Global); ok && names[g.Name()] {
+						return fmt.Errorf("axiom mentions global %s, which is assigned in %s (not only during initialisation)", g.Name(), fn.Name())
+					}
+				}
+			}
+		}
+	}
+	return nil
+}
+
 type Env struct {
 	repo   string
 	fset   *token.FileSet
@@ -71,14 +112,22 @@ func loadEnv(repo string) (*Env, error) {
 	for _, f := range pkgs[0].Syntax {
 		e.files[e.fset.File(f.Pos())] = f
 	}
-	cpath := filepath.Join(repo, "verif_contracts.go")
-	if _, err := os.Stat(cpath); err == nil {
-		e.con, err = loadContracts(cpath)
-		if err != nil {
+	e.con = newContracts()
+	libs, _ := filepath.Glob(filepath.Join(libDir, "*.spec"))
+	sort.Strings(libs)
+	for _, l := range libs {
+		if err := loadContracts(e.con, l); err != nil {
 			return nil, err
 		}
-	} else {
-		e.con = &Contracts{Funcs: map[string]*FuncContract{}, Specs: map[string]*SpecDef{}, Callbacks: map[string]*FuncContract{}}
+	}
+	cpath := filepath.Join(repo, "verif_contracts.go")
+	if _, err := os.Stat(cpath); err == nil {
+		if err := loadContracts(e.con, cpath); err != nil {
+			return nil, err
+		}
+	}
+	if err := e.checkAxiomGlobals(); err != nil {
+		return nil, err
 	}
 	return e, nil
 }
